@@ -885,7 +885,8 @@ class Outputs:
 
                 partial_filenames[out_format] = filename.name
 
-            all_filenames[valid_name] = partial_filenames
+            # Note: a bucket can be requested in several entries (with other formats)
+            all_filenames.setdefault(valid_name, {}).update(partial_filenames)
 
         datatree: "xr.DataTree" = _dict_to_datatree(all_filenames)
         return datatree
